@@ -1,10 +1,13 @@
-(* sanitize.go: Sanitize and its two patterns (after fix 5c21365), as direct matchers over runes.
-   The patterns (written here with DQ for the double quote and SQ for the single quote):
-     sanitizeSetPassword    (?i)password\s+for\s+(?:DQ(?:[^DQ\\\n]|\\.)*DQ|[^\s=DQSQ]+)\s*=\s*(LIT)
-     sanitizeCreatePassword (?i)with\s+password\s*(LIT)
+(* sanitize.go: Sanitize and its pattern, as direct matchers over runes.  One pattern with two clause heads and
+   one captured literal (written here with DQ for the double quote and SQ for the single quote):
+     sanitizePassword (?i)(?:HEAD1|HEAD2)(LIT)
+     HEAD1 = password\s+for\s+(?:DQ(?:[^DQ\\\n]|\\.)*DQ|[^\s=DQSQ]+)\s*=\s*        (SET PASSWORD FOR name =)
+     HEAD2 = with\s+password\s*                                                    (CREATE USER ... WITH PASSWORD)
      LIT = SQ(?:[^SQ\\\n]|\\.)*SQ | DQ(?:[^DQ\\\n]|\\.)*DQ | [^\sDQSQ;]+
-   Each pattern is deterministic (no alternative shares a first character with what may follow it), so the
-   leftmost-first match at a position is computed by one left-to-right pass. *)
+   The two heads start with different letters and each is deterministic (no alternative shares a first character
+   with what may follow it), so the leftmost-first match at a position is computed by one left-to-right pass.
+   The text is scanned ONCE (FindAllStringSubmatchIndex): a clause head that occurs inside a literal already
+   consumed as a password is not seen. *)
 From InfluxQL Require Import Base.Prelude.
 Local Notation "x <-o e ;; f" := (option_bind e (fun x => f)) (at level 61, e at next level, right associativity).
 
@@ -118,4 +121,8 @@ Fixpoint redact_all (m : text -> option (text * text)) (skip : nat) (t : text) :
       end
   end.
 
-Definition sanitize (t : text) : text := redact_all match_create 0 (redact_all match_set 0 t).
+(* the two heads of the one pattern *)
+Definition match_any (t : text) : option (text * text) :=
+  match match_set t with Some x => Some x | None => match_create t end.
+
+Definition sanitize (t : text) : text := redact_all match_any 0 t.
